@@ -80,6 +80,8 @@ type FnCtx struct {
 	typeIDs       map[string]bool
 	axiomFacts    []string
 	sentinels     map[*ssa.Global]string
+	usedSums      map[string]bool
+	knownArrays   map[string]bool
 }
 
 func newFnCtx(eng *Engine, fn *ssa.Function, fc *FuncContract, key string) *FnCtx {
@@ -88,7 +90,7 @@ func newFnCtx(eng *Engine, fn *ssa.Function, fc *FuncContract, key string) *FnCt
 		counters: map[string]int{}, strConsts: map[string]string{}, pathCap: 4096,
 		callOrd: map[ssa.Instruction]int{}, panicOrd: map[ssa.Instruction]string{}, usedSpecFns: map[string]bool{},
 		closures: map[string]*ssa.MakeClosure{}, inlined: map[string]bool{}, usedContracts: map[string]*FuncContract{},
-		usedLockInvs: map[string]bool{}, typeIDs: map[string]bool{}, sentinels: map[*ssa.Global]string{}}
+		usedLockInvs: map[string]bool{}, typeIDs: map[string]bool{}, sentinels: map[*ssa.Global]string{}, usedSums: map[string]bool{}}
 }
 
 func (c *FnCtx) note(s string) { c.notes[s] = true }
@@ -307,6 +309,25 @@ func (c *FnCtx) modelVars(st *State) []string {
 			if _, ok := leaf.T.Underlying().(*types.Map); ok {
 				out = append(out, "len("+path+")="+sel(c.heapGet(st.oldHeap, arrName("L", "", "", "Int")), leaf.S))
 			}
+			// one level of scalar fields of pointed-to structs (entry / post-lock state)
+			if pt, ok := leaf.T.Underlying().(*types.Pointer); ok && leaf.K == KRef && leaf.A == nil {
+				if stt, ok := pt.Elem().Underlying().(*types.Struct); ok && kindOf(pt.Elem()) == KStruct {
+					for i := 0; i < stt.NumFields() && i < 24; i++ {
+						f := stt.Field(i)
+						for _, lf := range leavesOf(f.Type()) {
+							if kindOf(lf.T) != KInt && kindOf(lf.T) != KBool {
+								continue
+							}
+							fp := joinPath(f.Name(), lf.Path)
+							if strings.Count(fp, ".") > 1 {
+								continue
+							}
+							arr := c.heapGet(st.oldHeap, arrName("F", typeName(pt.Elem()), fp, lf.Sort))
+							out = append(out, path+"."+fp+"="+sel(arr, leaf.S))
+						}
+					}
+				}
+			}
 		})
 	}
 	return out
@@ -393,6 +414,10 @@ func (c *FnCtx) execInstrs(frame *Frame, b *ssa.BasicBlock, i int, st *State) {
 			for _, r := range x.Results {
 				rs = append(rs, c.val(st, r))
 			}
+			if !frame.inlined && !st.ghostDone {
+				c.applyGhostUpdates(frame, st, rs, b)
+				st.ghostDone = true
+			}
 			frame.onReturn(st, rs, x)
 			return
 		case *ssa.Panic:
@@ -401,6 +426,25 @@ func (c *FnCtx) execInstrs(frame *Frame, b *ssa.BasicBlock, i int, st *State) {
 			}
 			return
 		case *ssa.RunDefers:
+			if !frame.inlined && !st.ghostDone {
+				// ghost assignments happen before the deferred calls (e.g. Unlock) run
+				var rs []Val
+				known := true
+				if ret, ok := b.Instrs[len(b.Instrs)-1].(*ssa.Return); ok {
+					for _, r := range ret.Results {
+						if _, isConst := r.(*ssa.Const); !isConst {
+							if _, have := st.env[r]; !have {
+								known = false
+							}
+						}
+						rs = append(rs, c.val(st, r))
+					}
+				}
+				if known {
+					c.applyGhostUpdates(frame, st, rs, b)
+					st.ghostDone = true
+				}
+			}
 			c.runDefers(frame, st, func(st2 *State) {
 				c.execInstrs(frame, b, i+1, st2)
 			})
